@@ -818,6 +818,8 @@ class Runner:
                 releasable = True
             elif shell_at == "wait?":
                 releasable = self.wait_dirty
+                if not releasable:
+                    self.check_wait_has_a_subject()
             if releasable:
                 choices.append(("shell",))
             polls = {}
@@ -897,6 +899,29 @@ class Runner:
             if shell_blocked is not None and not getattr(self, "stalled", False):
                 # the shell may have been woken up by that step
                 return False
+
+    def check_wait_has_a_subject(self):
+        """the shell sits in a blocking wait with nothing unreported: some process of the current line must still be
+        there to wait for -- otherwise only a child of another line (a background job) can end this wait"""
+        line = self.cur
+        if line is None or line.get("bg") or not line.get("_groups"):
+            return
+        G = self.current_group()
+        if G is None or G.bg:
+            return
+        subjects = [st for g in line["_groups"] for st in g.stages
+                    if st.pid is not None and not getattr(st, "reaped", False) and not getattr(st, "in_process", False)]
+        if subjects:
+            return
+        if any(st.pid is None and not getattr(st, "fork_failed", False) and not getattr(st, "in_process", False)
+               and st.kind == "pup" for st in G.stages):
+            return      # (stages still to be forked)
+        others = [st for st in self.stages.values() if st.line_no != self.line_no and st.pid is not None and not st.gone]
+        if not others:
+            return      # (no child at all: the wait fails at once)
+        self.sim.probe("blocking_wait_checked_for_a_subject")
+        raise Violation("deadlock", "the shell sits in a blocking wait although every process of line %d has been "
+                        "collected; only %s (another line's) can end it" % (self.line_no, others[0].label()))
 
     def check_leaked_ends(self, polls):
         """Once the shell has forked every stage of the line it holds no pipe end
